@@ -20,7 +20,7 @@ ASSUME = ["the generator's binder ids follow conventional lexical scoping (same 
           "the LSP half of the property (textDocument/rename returns the same edits) is decided by C29's edit check"]
 BATCH = 1
 FLOOR = {"quick": 30, "thorough": 60}
-BUDGET = {"quick": 45, "thorough": 840}
+BUDGET = {"quick": 35, "thorough": 840}
 FRESH = "verif_fresh_name"
 
 
